@@ -1,11 +1,19 @@
-import Cvss.Spec.Metrics
+import Cvss.Spec.V2
+import Cvss.Spec.V3
+import Cvss.Spec.V4
 /-!
 # Driver: the Spec's score oracle, per version
 
 `tenths ver val` = for each main score of the version (v2/v3: base, temporal, environmental; v4: score) the list of
-admissible values in tenths according to the Spec (`Spec/V2.lean`: one or two values at an exact half-way tie;
-`Spec/V3.lean`, `Spec/V4.lean`: exactly one). Empty list = Spec for that version not available.
+admissible values in tenths according to the Spec (`Spec/V2.lean`: one or two values at an exact half-way tie of the
+guide's round_to_1_decimal; `Spec/V3.lean`, `Spec/V4.lean`: exactly one).
 -/
 namespace SpecScores
-def tenths (ver : String) (val : List Nat → List Nat) : List (List Int) := []
+def tenths (ver : String) (val : List Nat → List Nat) : List (List Int) :=
+  match ver with
+  | "20" => [Spec.V2.baseKs val, Spec.V2.temporalKs val, Spec.V2.envKs val]
+  | "30" => [[(Spec.V3.baseK false val : Nat)], [(Spec.V3.temporalK false val : Nat)], [(Spec.V3.environmentalK false val : Nat)]]
+  | "31" => [[(Spec.V3.baseK true val : Nat)], [(Spec.V3.temporalK true val : Nat)], [(Spec.V3.environmentalK true val : Nat)]]
+  | "40" => [[(Spec.V4.scoreK val : Nat)]]
+  | _ => []
 end SpecScores
